@@ -349,6 +349,7 @@ func Run(r *evid.Run) {
 		run := func(t reflect.Type, chain []string) {
 			cur = Case{Type: t.String(), Chain: chain}
 			n++
+			w.Beat()
 			if strings.Count(chain[0], "{")+strings.Count(chain[len(chain)-1], "{") >= 2 {
 				nt++
 			}
